@@ -30,6 +30,7 @@ func boolTok(s string) string {
 
 func canon(evs []kafka.VerifEvent, topics []string) (string, map[string]int) {
 	genIdx := map[string]int{}
+	ngen := 0
 	connGen := map[string]int{} // connection id -> generation index
 	lastJoinConn := ""
 	accOf := map[string]string{} // "g/k" -> acc token
@@ -109,7 +110,8 @@ func canon(evs []kafka.VerifEvent, topics []string) (string, map[string]int) {
 		case "M.Close":
 			add("cClose:" + a[0]) // (C09) the library closed that connection
 		case "G.New":
-			genIdx[a[1]] = len(genIdx)
+			genIdx[a[1]] = ngen // a counter, not len(genIdx): the address of an earlier generation may be reused
+			ngen++
 			connGen[lastJoinConn] = genIdx[a[1]]
 			add(fmt.Sprintf("gNew:%s:%s:%s", gi(a[1]), a[2], gm.Mem(a[3])))
 		case "H.Start":
@@ -264,7 +266,7 @@ func grunScenario(kind int, r *rand.Rand) (string, string) {
 	kafka.VerifSetGroupHandler(nil)
 	evs := kafka.VerifStop()
 	tr, _ := canon(evs, []string{"t"})
-	if n := settle(base, time.Second); n != 0 {
+	if n := settle(base, censusBound()); n != 0 {
 		status = append(status, "leak:"+strconv.Itoa(n))
 	}
 	st := "ok"
